@@ -1221,6 +1221,23 @@ class Model:
         if options["reduce_affine_expression"]:
             logger.info("Collapsing model into an affine expression")
 
+            # Replace veccat'ed states with brand new state vectors so as to avoid the value copy operations induced by veccat.
+            # The equations and the initial equations share these vectors.
+            self._states_vector = ca.MX.sym(
+                "states_vector", sum([s.numel() for s in self._symbols(self.states)])
+            )
+            self._der_states_vector = ca.MX.sym(
+                "der_states_vector",
+                sum([s.numel() for s in self._symbols(self.der_states)]),
+            )
+            self._alg_states_vector = ca.MX.sym(
+                "alg_states_vector",
+                sum([s.numel() for s in self._symbols(self.alg_states)]),
+            )
+            self._inputs_vector = ca.MX.sym(
+                "inputs_vector", sum([s.numel() for s in self._symbols(self.inputs)])
+            )
+
             for equation_list in ["equations", "initial_equations"]:
                 equations = getattr(self, equation_list)
                 if len(equations) > 0:
@@ -1257,22 +1274,6 @@ class Model:
 
                     A = Af(0, constants, parameters)
                     b = bf(0, constants, parameters)
-
-                    # Replace veccat'ed states with brand new state vectors so as to avoid the value copy operations induced by veccat.
-                    self._states_vector = ca.MX.sym(
-                        "states_vector", sum([s.numel() for s in self._symbols(self.states)])
-                    )
-                    self._der_states_vector = ca.MX.sym(
-                        "der_states_vector",
-                        sum([s.numel() for s in self._symbols(self.der_states)]),
-                    )
-                    self._alg_states_vector = ca.MX.sym(
-                        "alg_states_vector",
-                        sum([s.numel() for s in self._symbols(self.alg_states)]),
-                    )
-                    self._inputs_vector = ca.MX.sym(
-                        "inputs_vector", sum([s.numel() for s in self._symbols(self.inputs)])
-                    )
 
                     states_vector = ca.vertcat(
                         self._states_vector,
